@@ -36,6 +36,18 @@ Theorem C09_execution_options_adopt_nothing : forall dbapi closed s G,
   keys_apart dbapi s G -> clone_track dbapi closed G (ss_conn s) = G.
 Proof. exact clone_track_own_noop. Qed.
 
+(* Layer M refines Layer B: in any interleaving of independent sessions, the working database, the
+   committed database and the unit of work of session s are exactly the state of the unit-of-work
+   machine (Model/Core.v) after s's own events.  Hence every theorem about `run` - C01 (newest version
+   = live row), C02 (transaction records), C03 (validity chain), C07, C10, C11, C13, C17, C18 - holds
+   for every session of every interleaving. *)
+Theorem C09_each_session_is_a_core_run : forall dbapi closed conn_of,
+  (forall a b, conn_of a = conn_of b -> a = b) ->
+  forall g s sched,
+  owns conn_of s -> sched_ok dbapi closed conn_of s sched ->
+  core_of (grun dbapi closed g sched) (ss_conn s) = run g (map snd (filter (mine s) sched)).
+Proof. exact interleaved_session_is_core_run. Qed.
+
 (* quiescence: after its rollback a session has neither a unit of work nor a map entry; after its
    commit likewise (it was registered by its first flush) *)
 Theorem C09_quiescent_after_rollback : forall dbapi closed conn_of,
@@ -69,3 +81,4 @@ Print Assumptions C09_quiescent_after_commit.
 Print Assumptions C09_example.
 Print Assumptions C09_interleaving_with_execution_options.
 Print Assumptions C09_execution_options_adopt_nothing.
+Print Assumptions C09_each_session_is_a_core_run.
